@@ -37,7 +37,7 @@ PROFILE = S.GENERAL.but(p_block=6, p_rerun=8,
 
 
 def budget(tier):
-    return dict(examples=1000 if tier == 'quick' else 30000)
+    return dict(examples=1000 if tier == 'quick' else 20000)
 
 
 def strategy(tier):
